@@ -105,3 +105,157 @@ Contract(COMPOSITE, 'struct.encode', ['C01', 'C19', 'C03'], struct_encode_setup,
          hooks={'call': hook_call, 'getattr_dyn': hook_getattr_dyn},
          notes=['field encoders by contract: field.encode_fcn(parent, type, value, e) == enc(field type, value, e)',
                 'struct_packed (never emitted by prophyc) is outside the contract'])
+
+
+# ------------------------------------------------------------------ shared opaque pieces
+
+class AnyValue(Sym):
+    """a field value: None, or a present value whose truthiness is independent of its presence
+    (0, 0.0, an enum member numbered 0 and an empty array are falsy but present)"""
+
+    def __init__(self, vm, name='value'):
+        self.isnone = vm.fresh(name + '#none', z3.BoolSort())
+        self.falsy = vm.fresh(name + '#falsy', z3.BoolSort())
+        self.id = vm.fresh(name + '#id', Ref)
+
+    def sym_truthy(self, vm):
+        return z3.And(z3.Not(self.isnone), z3.Not(self.falsy))
+
+    def sym_is_none(self, vm):
+        return self.isnone
+
+
+class OpaqueType(Sym):
+    """a type object of which only named callables are used"""
+
+    def __init__(self, tag):
+        self.tag = tag
+
+
+def e_const(vm):
+    return SStr(vm.contract.str_const('<endianness>'))
+
+
+from vf.pyvc import SStr
+
+
+# ------------------------------------------------------------------ descriptor.encode_optional
+
+def encopt_setup(vm, module, env):
+    type_ = vm.fresh_ref('type_', None)
+    t = type_.t
+    # wf of the optional type: postcondition of optional() (contracts/c04_runtime.py)
+    vm.assume(z3.And(_in(sel(vm, '_OPTIONAL_ALIGNMENT', t), (4, 8)), sel(vm, '_SIZE', t) >= 0,
+                     sel(vm, '_OPTIONAL_SIZE', t) == sel(vm, '_OPTIONAL_ALIGNMENT', t) + sel(vm, '_SIZE', t)))
+    parent = vm.fresh_ref('parent', None)
+    value = AnyValue(vm)
+    e = e_const(vm)
+    PACKU32 = z3.Function('PACKU32', z3.IntSort(), ByteSeq)     # u32._encode(x, e): 4 bytes (numeric encode contract)
+    ENCB = z3.Function('ENCB', Ref, ByteSeq)                    # base encoder on the present value
+    vm.assume(z3.Length(PACKU32(1)) == 4)
+    vm.assume(z3.Length(ENCB(value.id)) == sel(vm, '_SIZE', t))  # base type is fixed: len(enc) == S(base) (C04 lemma)
+    st = {'args': [parent, type_, value, e], 'type': type_, 'parent': parent, 'value': value, 'e': e, 'PACKU32': PACKU32,
+          'ENCB': ENCB, 'closure_env': {}}
+    vm.state = st
+    return st
+
+
+def encopt_getattr(vm, obj, attr):
+    st = vm.state
+    if isinstance(obj, SRef) and obj.t.eq(st['type'].t):
+        if attr == '_optional_type':
+            return OpaqueType('u32')
+        if attr == '__bases__':
+            return (OpaqueType('base'),)
+        if attr == '_encode':
+            return OpaqueFn(obj, '_encode')
+    if isinstance(obj, OpaqueType) and attr == '_encode':
+        return OpaqueFn(obj, '_encode')
+    return NotImplemented
+
+
+def encopt_call(vm, fn, args, kwargs, node):
+    st = vm.state
+    if isinstance(fn, OpaqueFn) and fn.attr == '_encode':
+        if isinstance(fn.owner, OpaqueType) and fn.owner.tag == 'u32':
+            flag, e = args
+            vm.oblige('call.flag:endianness passed unchanged', e.t == st['e'].t, 'call', vm.cur_line)
+            return SBytes(st['PACKU32'](vm.as_int(flag)))
+        if isinstance(fn.owner, SRef):
+            vm.oblige('call.base encoder:(parent, base type, the value, endianness)', z3.And(
+                args[0].t == st['parent'].t, isinstance(args[1], OpaqueType) and args[1].tag == 'base',
+                args[2] is st['value'], args[3].t == st['e'].t), 'call', vm.cur_line)
+            return SBytes(st['ENCB'](st['value'].id))
+    return NotImplemented
+
+
+def encopt_post(vm, st, result):
+    t, v = st['type'].t, st['value']
+    r = vm.as_bytes(result)
+    oa, osz = sel(vm, '_OPTIONAL_ALIGNMENT', t), sel(vm, '_OPTIONAL_SIZE', t)
+    present = z3.Concat(st['PACKU32'](1), zeros(vm, oa - 4), st['ENCB'](v.id))
+    return [('absent: zero-filled slot of the optional size', z3.Implies(v.isnone, r == zeros(vm, osz))),
+            ('present: flag 1, padding to the optional alignment, value', z3.Implies(z3.Not(v.isnone), r == present)),
+            ('slot has the full optional size', z3.Length(r) == osz)]
+
+
+Contract(DESCRIPTOR, 'encode_optional', ['C01', 'C02', 'C04', 'C19'], encopt_setup, encopt_post, shapes=SHAPES, modifies=[],
+         hooks={'getattr': encopt_getattr, 'call': encopt_call},
+         notes=['flag encoder u32._encode and the base encoder by contract'])
+
+
+# ------------------------------------------------------------------ union.encode
+
+def uenc_setup(vm, module, env):
+    cls = env.get('union')
+    self = vm.fresh_ref('self', cls)
+    s = self.t
+    d = vm.fresh_ref('d', None)          # self._discriminated (a descriptor field)
+    vm.assume(z3.Select(vm.heap_array('_discriminated'), s) == d.t)
+    vm.assume(z3.And(_in(sel(vm, '_ALIGNMENT', s), (4, 8)), sel(vm, '_SIZE', s) >= sel(vm, '_ALIGNMENT', s)))
+    e = e_const(vm)
+    PACKU32 = z3.Function('PACKU32', z3.IntSort(), ByteSeq)
+    ENCF = z3.Function('ENCF', Ref, ByteSeq)
+    j = z3.Int('j')
+    vm.assume(z3.ForAll([j], z3.Length(PACKU32(j)) == 4, patterns=[PACKU32(j)]))
+    # wf_class (union_generator.add_attributes): every arm fits: A + len(enc(arm)) <= S
+    vm.assume(sel(vm, '_ALIGNMENT', s) + z3.Length(ENCF(d.t)) <= sel(vm, '_SIZE', s))
+    st = {'args': [self, e], 'self': self, 'd': d, 'e': e, 'PACKU32': PACKU32, 'ENCF': ENCF, 'closure_env': {}}
+    vm.state = st
+    return st
+
+
+def uenc_getattr(vm, obj, attr):
+    st = vm.state
+    if isinstance(obj, SRef) and obj.t.eq(st['self'].t) and attr == '_discriminator_type':
+        return OpaqueType('u32')
+    if isinstance(obj, OpaqueType) and attr == '_encode':
+        return OpaqueFn(obj, '_encode')
+    return NotImplemented
+
+
+def uenc_call(vm, fn, args, kwargs, node):
+    st = vm.state
+    if isinstance(fn, OpaqueFn) and fn.attr == '_encode' and isinstance(fn.owner, OpaqueType):
+        disc, e = args
+        vm.oblige('call.discriminator:endianness passed unchanged', e.t == st['e'].t, 'call', vm.cur_line)
+        return SBytes(st['PACKU32'](vm.as_int(disc)))
+    if isinstance(fn, OpaqueFn) and fn.attr == 'encode_fcn':
+        vm.oblige('call.encode_fcn:(self, arm type, arm value, endianness)', z3.And(
+            args[0].t == st['self'].t, args[1].t == sel(vm, 'type', st['d'].t),
+            isinstance(args[2], FieldValue) and args[2].field.t == st['d'].t, args[3].t == st['e'].t), 'call', vm.cur_line)
+        return SBytes(st['ENCF'](st['d'].t))
+    return NotImplemented
+
+
+def uenc_post(vm, st, result):
+    s, d = st['self'].t, st['d'].t
+    A, S = sel(vm, '_ALIGNMENT', s), sel(vm, '_SIZE', s)
+    body = st['ENCF'](d)
+    head = z3.Concat(st['PACKU32'](sel(vm, 'discriminator', d)), zeros(vm, A - 4), body)
+    return [('discriminator, padding to A, arm, zero fill to S', vm.as_bytes(result) == z3.Concat(head, zeros(vm, S - A - z3.Length(body)))),
+            ('slot has the full union size', z3.Length(vm.as_bytes(result)) == S)]
+
+
+Contract(COMPOSITE, 'union.encode', ['C01', 'C19', 'C04'], uenc_setup, uenc_post, shapes=SHAPES, modifies=[],
+         hooks={'getattr': uenc_getattr, 'call': uenc_call, 'getattr_dyn': hook_getattr_dyn})
